@@ -335,3 +335,27 @@ class NumKernel(BaseKernel):
 
     def value(self, x):
         return float(x)
+
+    def system_equiv(self, A_code, rhs_code, A_spec, rhs_spec, dx, label, fixed_idx=()):
+        """Numeric reading: the vector the real solver returned for the code's system solves the spec system."""
+        np = self.np
+        As = np.array([[float(x) for x in row] for row in A_spec])
+        if As.size and (not np.all(np.isfinite(As)) or np.linalg.cond(As) > 1e9):
+            raise Reject("the spec system is ill-conditioned: not a well-posed instance")
+        Ac = np.array([[float(x) for x in row] for row in A_code])
+        dxv = np.array([float(x) for x in dx])
+        if Ac.size and (not np.all(np.isfinite(Ac)) or np.linalg.cond(Ac) > 1e12 or not np.all(np.isfinite(dxv))):
+            self.goals.append({"label": label, "kind": "system", "ok": False,
+                               "detail": "the system handed to the solver is singular (or its solution non-finite) while the spec system is well-conditioned"})
+            return False
+        ok = True
+        worst = 0.0
+        for i, row in enumerate(A_spec):
+            terms = [float(a) * float(d) for a, d in zip(row, dxv)]
+            res = sum(terms) - float(rhs_spec[i])
+            scale = sum(abs(t) for t in terms) + abs(float(rhs_spec[i])) + 1e-12
+            worst = max(worst, abs(res) / scale)
+            if abs(res) > 1e-6 * scale + 1e-9:
+                ok = False
+        self.goals.append({"label": label, "kind": "system", "ok": ok, "max_rel_residual": worst})
+        return ok
